@@ -118,3 +118,45 @@ func GenLexInput(r *rand.Rand, pieces int) string {
 	}
 	return b.String()
 }
+
+// StructuredLexInputs: deterministic inputs that sweep what the short exhaustive inputs and the random
+// ones rarely reach: every count of a repeated construct from 1 to 40 (lines of a block string, with and
+// without indentation and trailing blank lines; escapes in a string; digits; name characters; comment
+// lines; nested brackets), every escape letter, every class of wrong character at every position of a
+// \uXXXX escape, long tokens that end in characters of every UTF-8 width.
+func StructuredLexInputs() []string {
+	var out []string
+	rep := strings.Repeat
+	for n := 1; n <= 40; n++ {
+		var lines []string
+		for i := 0; i < n; i++ {
+			lines = append(lines, fmt.Sprintf("    line%c", 'a'+rune(i%26)))
+		}
+		body := strings.Join(lines, "\n")
+		out = append(out, "\"\"\"\n"+body+"\n    \"\"\" x", "\"\"\""+strings.TrimLeft(body, " ")+"\n\n  \"\"\"", "\"\"\"\r\n"+strings.ReplaceAll(body, "\n", "\r\n")+"\r\n\"\"\"1",
+			"\""+rep(`\n`, n)+"\" \""+rep(`\u00e9`, n)+"\"", rep("7", n)+" -"+rep("3", n)+"."+rep("1", n)+"e"+rep("2", (n%3)+1), "_"+rep("aZ9", n)+" "+rep("#c\n", n)+"x",
+			rep("[", n)+rep("]", n)+rep("{", n)+"!"+rep("...", n))
+	}
+	// every single-character escape, valid or not
+	for c := 0x20; c < 0x7f; c++ {
+		out = append(out, "\"a\\"+string(rune(c))+"b\" x")
+	}
+	out = append(out, "\"a\\\x01b\"", "\"a\\\n\"", "\"a\\é\"", "\"a\\")
+	// \uXXXX with one wrong character at each position
+	wrong := []string{"g", "G", " ", "/", ":", "@", "`", "-", "\x10", "\x13", "\x19", "\x7f", "é", "\"", "\\", "\n", "x", "+"}
+	for pos := 0; pos < 4; pos++ {
+		for _, w := range wrong {
+			hex := []string{"0", "0", "e", "9"}
+			hex[pos] = w
+			out = append(out, "\"caf\\u"+strings.Join(hex, "")+" au lait\" y")
+		}
+	}
+	out = append(out, "\"\\u00e\"", "\"\\u00\"", "\"\\u\"", "\"\\uFFFD\\uffff\\u0000\"")
+	// long tokens ending in characters of every width
+	for n := 56; n <= 72; n++ {
+		for _, tail := range []string{"x", "é", "日", "\U0001F600", "é\U0001F600"} {
+			out = append(out, "\""+rep("a", n)+tail+"\"", "\"\"\""+rep("b", n)+tail+"\"\"\" z", "#"+rep("c", n)+tail)
+		}
+	}
+	return out
+}
